@@ -481,26 +481,6 @@ fn main() {
     sum.expect_branches(&["k-lt-m", "k-eq-m", "k-gt-m", "tie-inside-topk", "tie-at-cutoff", "query-wrong-dimension", "reopen-identical",
         "multi-commit", "with-deletes", "model-compared", "model-skipped-rounding-sensitive-order", "empty-query", "codec-roundtrip",
         "codec-truncated", "codec-extended", "nan-distance", "nan-just-below-cutoff", "empty-index-ok"]);
-    if args.mode == "probe" {
-        use std::time::Instant;
-        let dir = tempfile::tempdir().unwrap();
-        let path = dir.path().join("p.mv2");
-        let t = Instant::now(); let mut mem = Memvid::create(&path).unwrap(); println!("create {:?}", t.elapsed());
-        let t = Instant::now();
-        for i in 0..10 { let opts = PutOptions { instant_index: false, auto_tag: false, extract_dates: false, extract_triplets: false, ..Default::default() };
-            mem.put_with_embedding_and_options(format!("document number {i}").as_bytes(), vec![i as f32, 1.0], opts).unwrap(); }
-        println!("10 light puts {:?}", t.elapsed());
-        let t = Instant::now(); mem.commit().unwrap(); println!("commit {:?}", t.elapsed());
-        let t = Instant::now();
-        for i in 0..3 { mem.put_with_embedding(format!("document default {i}").as_bytes(), vec![i as f32, 2.0]).unwrap(); }
-        println!("3 default puts {:?}", t.elapsed());
-        let t = Instant::now(); mem.commit().unwrap(); println!("commit2 {:?}", t.elapsed());
-        let t = Instant::now(); mem.delete_frame(2).unwrap(); mem.commit().unwrap(); println!("delete+commit {:?}", t.elapsed());
-        let t = Instant::now(); drop(mem); println!("drop {:?}", t.elapsed());
-        let t = Instant::now(); let mut m2 = Memvid::open(&path).unwrap(); println!("open {:?}", t.elapsed());
-        let t = Instant::now(); let h = m2.search_vec(&[0.0, 1.0], 3).unwrap(); println!("search {:?} {}", t.elapsed(), h.len());
-        return;
-    }
     if args.mode == "replay" {
         let case = load_replay(args.replay_file.as_ref().expect("replay file"));
         let input = case.get("input").unwrap_or(&case);
